@@ -102,6 +102,9 @@ def make_bundle(rng, idx):
     model["sdl_extra"] = ['directive @mark(tag: String = "d") on FIELD_DEFINITION | OBJECT' + (" | FIELD" if wide else ""), f"extend type {ext_target} @mark(tag: \"ext\")"]
     for q, opn, variables in list(probes[:2]):
         probes.append((q.replace("{", '{ __typename @mark(tag: "q") ', 1), opn, variables))
+    # a variable of the custom scalar type: it must be coerced by THIS schema name's implementation (identical text everywhere)
+    if "echo11" in sg.echo:
+        probes.append(("query PV($a: Any) { echo11(v: $a) lit: echo11(v: \"lit\") }", "PV", {"a": "val"}))
     # what each engine says about ITS OWN schema (type names are shared between bundles, their members are not)
     probes.append(("{ __schema { types { name kind fields { name args { name } } enumValues { name } possibleTypes { name } } directives { name locations } } }", None, None))
     probes.append(('{ a: __type(name: "T") { fields(includeDeprecated: true) { name } } b: __type(name: "Query") { fields { name type { name kind } } } }', None, None))
